@@ -51,6 +51,8 @@ type sessionSpec struct {
 	CutAt    int64   `json:"cut_at,omitempty"`
 	KillAt   int64   `json:"kill_at,omitempty"`
 	CutBack  int64   `json:"cut_back,omitempty"` // end of the stream from the receiving side at this offset
+	// a hand-written sending peer (kind = "hostile")
+	Hostile *hostileSpec `json:"hostile,omitempty"`
 }
 
 type sessionResult struct {
@@ -65,6 +67,7 @@ type sessionResult struct {
 	// bytes that reached the receiving side, and the snapshots taken at FreezeAt
 	ToReceiver int64    `json:"to_receiver"`
 	MidSnaps   []string `json:"mid_snaps,omitempty"`
+	Log        []string `json:"log,omitempty"`
 }
 
 // gateReader counts the bytes towards one side and interrupts at byte offsets.
@@ -153,6 +156,14 @@ func runSessionInProcess(sp sessionSpec) (res sessionResult) {
 	res.ID = sp.ID
 	if sp.Kind == "parse" {
 		res.Parse, res.Outcome = parseObservable(sp.Args), "ok"
+		return res
+	}
+	if sp.Kind == "hostile" {
+		if err := runHostile(sp, &res); err != nil {
+			res.Err, res.Outcome = err.Error(), "error"
+		} else {
+			res.Outcome = "ok"
+		}
 		return res
 	}
 	var stderr bytes.Buffer
